@@ -200,7 +200,14 @@ pub fn builtin_merge_patch(target: Val, patch: Val) -> Result<Val> {
 
 	let mut out = ObjValueBuilder::new();
 	for field in target_fields.union(&patch_fields) {
-		let Some(field_patch) = patch.get(field.clone())? else {
+		// Only visible fields take part in the merge: a hidden field of the patch patches nothing,
+		// a hidden field of the target is not a merge base.
+		let field_patch = if patch_fields.contains(field) {
+			patch.get(field.clone())?
+		} else {
+			None
+		};
+		let Some(field_patch) = field_patch else {
 			// All lazy fields might be unified into a single filtered object core instead of creating a thunk per, but this implementation is good enough.
 			let target_field = target.get_lazy(field.clone()).expect("we're iterating over fields union, if field is missing in patch - it exists in target");
 			out.field(field.clone()).thunk(target_field);
@@ -209,7 +216,11 @@ pub fn builtin_merge_patch(target: Val, patch: Val) -> Result<Val> {
 		if matches!(field_patch, Val::Null) {
 			continue;
 		}
-		let field_target = target.get(field.clone())?.unwrap_or(Val::Null);
+		let field_target = if target_fields.contains(field) {
+			target.get(field.clone())?.unwrap_or(Val::Null)
+		} else {
+			Val::Null
+		};
 		out.field(field.clone())
 			.value(builtin_merge_patch(field_target, field_patch)?);
 	}
